@@ -117,12 +117,12 @@ func (a Alpha) Ops(w *World, s *Spec) []Op {
 		}
 	}
 	if a.LoadVersion {
-		for v := int64(0); v <= m.Latest+1; v++ {
+		for _, v := range m.VersionCandidates(0) {
 			ops = append(ops, Op{Kind: OpLoadVersion, Ver: v})
 		}
 	}
 	if a.DelTo && m.Latest > 0 {
-		for n := int64(0); n <= m.Latest+1; n++ {
+		for _, n := range m.VersionCandidates(0) {
 			// Documented contract: never prune the version the working tree is based on; requests at or
 			// above the latest version are included because they must be rejected.
 			if n < m.Cur || n >= m.Latest {
@@ -131,7 +131,7 @@ func (a Alpha) Ops(w *World, s *Spec) []Op {
 		}
 	}
 	if a.LVFO && m.Latest > 0 {
-		for v := int64(1); v <= m.Latest+1; v++ {
+		for _, v := range m.VersionCandidates(1) {
 			ops = append(ops, Op{Kind: OpLVFO, Ver: v})
 		}
 	}
